@@ -420,7 +420,12 @@ func c19(r *hx.Run) {
 				rm2 := other.rm.rm
 				rm2.Doc = document.Document(doc.Clone(other.d.d).(doc.Doc))
 				info2 := dochandler.GetTransformationInfoForPublished(ns, ns+":EiOtherSuffix", "EiOtherSuffix", &rm2)
-				_, _ = tr.TransformDocument(&rm2, info2)
+				if res2, err2 := tr.TransformDocument(&rm2, info2); err2 == nil {
+					// the second result is as good as a first one: nothing carried over from the earlier transformation
+					if want2 := refProject(other.d.d, ns+":EiOtherSuffix", j.o); canonOf(res2.Document) != canonOf(want2) {
+						r.Violation("second-transformation-differs:"+c19DiffKeys(res2.Document, want2), caseID, fmt.Sprintf("document %s transformed after %s by the same transformer\n  impl: %s\n  ref : %s", other.d.name, j.d.name, hx.Trunc(canonOf(res2.Document), 500), hx.Trunc(canonOf(want2), 500)), nil)
+					}
+				}
 				if canonOf(res.Document) != first || canonOf(doc.Plain(res.DocumentMetadata)) != firstMD {
 					r.Violation("result-changed-by-later-transformation", caseID, fmt.Sprintf("the result of the first transformation changed after the same transformer processed %s\n  before: %s\n  after : %s", other.d.name, hx.Trunc(first, 400), hx.Trunc(canonOf(res.Document), 400)), nil)
 				}
